@@ -21,7 +21,7 @@ pub struct Case {
 }
 
 pub fn echo_wreq() -> impl Strategy<Value = WReq> {
-    (gen_req::wreq(), 0u8..7, "[a-zA-Z0-9._~-]{1,6}", "[a-zA-Z0-9%._~-]{1,6}", prop::option::weighted(0.25, "[a-z0-9]{1,8}"), prop::option::weighted(0.2, prop_oneof![3 => Just("close"), 2 => Just("Close"), 2 => Just("keep-alive"), 1 => Just("Keep-Alive"), 1 => Just("TE"), 1 => Just("keep-alive, TE"), 1 => Just("Upgrade, HTTP2-Settings"), 1 => Just("upgrade")]), vec(gen_req::header_line(), 0..5), prop::option::weighted(0.08, (0u8..4, any::<prop::sample::Index>()))).prop_map(
+    (gen_req::wreq(), 0u8..8, "[a-zA-Z0-9._~-]{1,6}", "[a-zA-Z0-9%._~-]{1,6}", prop::option::weighted(0.25, "[a-z0-9]{1,8}"), prop::option::weighted(0.2, prop_oneof![3 => Just("close"), 2 => Just("Close"), 2 => Just("keep-alive"), 1 => Just("Keep-Alive"), 1 => Just("TE"), 1 => Just("keep-alive, TE"), 1 => Just("Upgrade, HTTP2-Settings"), 1 => Just("upgrade")]), vec(gen_req::header_line(), 0..5), prop::option::weighted(0.08, (0u8..4, any::<prop::sample::Index>()))).prop_map(
         |(mut w, kind, a, b, ctx, conn, fewer_headers, poison)| {
             let query = w.target.split_once('?').map(|(_, q)| q.to_string());
             let b = if crate::oracle::http::pct_decode_strict(b.as_bytes()).ok().and_then(|x| String::from_utf8(x).ok()).is_some() { b } else { "b".to_string() };
@@ -35,6 +35,10 @@ pub fn echo_wreq() -> impl Strategy<Value = WReq> {
                 w.headers = fewer_headers;
             }
             if let Some(c) = ctx {
+                // (every fourth of them also asks the fang of the `/ctx` mount to strip the Connection header)
+                if c.len() % 4 == 0 {
+                    w.headers.push(("X-Strip-Hop".into(), "1".into()));
+                }
                 w.headers.push(("X-Set-Ctx".into(), c));
             }
             if let Some(c) = conn {
@@ -113,7 +117,7 @@ pub fn count_complete(bytes: &[u8], heads: &[bool]) -> usize {
 impl Property for C05 {
     type Case = Case;
     const ID: &'static str = "C05";
-    const RULE: &'static str = "generated: sequences of 1–6 requests, well-formed ones (C02's generator: any method, escaped targets and queries, header sets in any case, repeated names, bodies of arbitrary bytes incl. leading NUL and sizes around the 1 KiB buffer) aimed at a fixed echo application (0–2 path params, a context-setting fang on one mount, handlers that reflect method, path, params, query, every header, payload length+hash and context presence), some with Connection: close or other Connection options, and a share of refused requests (400) in between; each request delivered as one segment, the next only after the previous response. Executed (a) through the session loop re-stated over a scripted reader (real clear/read/handle/send) and (b) for a quarter of the cases through the real Session::manage over a socketpair. Oracle (metamorphic): the bytes of the k-th response equal the bytes the same request produces alone on a fresh connection (clock frozen); order preserved; nothing after Connection: close. Non-trivial = k ≥ 2 and an earlier request had a body, a custom header or set a context entry; distinct by case.";
+    const RULE: &'static str = "generated: sequences of 1–6 requests, well-formed ones (C02's generator: any method, escaped targets and queries, header sets in any case, repeated names, bodies of arbitrary bytes incl. leading NUL and sizes around the 1 KiB buffer) aimed at a fixed echo application (0–2 path params, a context-setting fang on one mount that also strips the request's Connection header on demand, handlers that reflect method, path, params, query, every header, payload length+hash and context presence; one route answers with a chunked event stream), some with Connection: close or other Connection options, and a share of refused requests (400) in between; each request delivered as one segment, the next only after the previous response. Executed (a) through the session loop re-stated over a scripted reader (real clear/read/handle/send) and (b) for a quarter of the cases through the real Session::manage over a socketpair. Oracle (metamorphic): the bytes of the k-th response equal the bytes the same request produces alone on a fresh connection (clock frozen); order preserved; nothing after Connection: close. Non-trivial = k ≥ 2 and an earlier request had a body, a custom header or set a context entry; distinct by case.";
     const ASSUMPTIONS: &'static [&'static str] = &[
         "request heads stay below the 1 KiB buffer (the quantifier varies body sizes)",
         "Connection values: close, Close, keep-alive, Keep-Alive, TE, `keep-alive, TE`, `Upgrade, HTTP2-Settings`, upgrade; lists naming close and other spellings of close (CLOSE) are not generated (the code compares with close/Close only, RFC 9110 compares case-insensitively: either reading would be defensible)",
@@ -131,6 +135,10 @@ impl Property for C05 {
     }
     fn chunk(&self, _tier: Tier) -> u64 {
         2000
+    }
+    fn fail_fast(&self) -> bool {
+        // a request that gets no answer through the real session costs seconds of waiting per case
+        true
     }
     fn in_domain(&self, case: &Case) -> bool {
         !case.requests.is_empty() && case.requests.iter().all(|w| wreq_in_domain(w) || is_poison(w))
